@@ -64,7 +64,7 @@ PROPS["C03"] = {
     "level_text": "Complete groups: tiny curves found by reference point counting are installed through the public ep_curve_set_plain/endom API; on ~1000-point curves (prime order, cofactor 2/4 with order-two points, a = -3/0/1/2, GLV) the complete Cayley table is run through every addition/doubling formula (affine, projective, Jacobian) in every operand representation and alias pattern; "
                   "on 16-bit prime-order curves (plain, GLV, generic a) every scalar in [-2n-3, 2n+3] through every variable-base, fixed-base (basic, single/double comb, w-NAF tables), generator, digit and simultaneous routine, every scalar pair in [-n-2, n+2]^2 for the simultaneous forms, many-point forms with n in {0..4, 9..12, 33}. "
                   "The six 256-bit curves run a scalar alphabet (0, +-1, n-1, n, n+1, 2n, multiples, 2^k boundaries, longer than n up to 2^1000-1, GLV boundary neighbourhood) against the same reference.",
-    "level_note": "Trusted: GMP-based affine reference (ref_ec.h), harness glue reading points by coordinate flag. Fixed-base tables are only built on tiny curves whose order has the bit length of the field (tiny_exclusion otherwise). W8 RNG never yields a zero blinding factor. Not reached: defects needing a specific 256-bit scalar outside the alphabet with no tiny analogue. The thorough tier also runs the 446-bit builds (BN_P446; B12_P446 where its twist is defined, i.e. under FP_QNRES).",
+    "level_note": "Trusted: GMP-based affine reference (ref_ec.h), harness glue reading points by coordinate flag. Fixed-base tables are only built on tiny curves whose order has the bit length of the field (tiny_exclusion otherwise). W8 RNG never yields a zero blinding factor. Not reached: defects needing a specific 256-bit scalar outside the alphabet with no tiny analogue. The thorough tier also runs the 446-bit builds (BN_P446; B12_P446 where its twist is defined, i.e. under FP_QNRES). The thorough tier also runs the 64-bit battery in builds of 160, 192, 224, 384 and 521 bits (SECG_P160/K160, NIST_P192/SECG_K192, NIST_P224/SECG_K224, NIST_P384, NIST_P521).",
     "rule": "cases are (curve, operation group, points, scalars); tiny worlds: complete point lists / scalar ranges by odometer; W64: alphabet products; all cases count as non-trivial (each involves at least one group operation); distinct by 64-bit hash; transitions = individual routine results compared with the reference.",
     "assumptions": ["reference group law in ref_ec.h", "calls inside RLC_TRY", "DRBG/RNG re-seeded identically before every randomised routine"],
     "jobs": [
